@@ -52,8 +52,10 @@ def gen_cases(tier, seed):
             o["solve_time"] = 1.0 if not scr else 0.3
         if scr:
             o["max_iterations_per_step"] = 3000
-        Ak = ["uniform", "ramp", "loop", "uniform_float"][k % 4]
+        Ak = ["uniform", "ramp", "loop", "ramp" if (k // 4) % 2 == 0 else "uniform_float"][k % 4]  # (k%4==3: screening, also with a time-dependent field)
         drive = {"A": S.field_spec(rng, dev, o, Ak, b=0.25), "currents": S.current_spec(rng, dev, o, ["const", "callable"][k % 2] if nt else "none", strength=0.15)}
+        if k % 4 in (1, 3):
+            drive["epsilon"] = {"kind": "time"}  # position- and time-dependent epsilon (evaluated at physical coordinates)
         ua, ub = systems[0], systems[1 + k % (len(systems) - 1)]
         if k % 3 == 2:
             ua = systems[int(rng.integers(1, len(systems)))]
@@ -170,6 +172,20 @@ def _l2(spec):
             break
     # physical outputs of the loaded solutions
     sa, sb = rra.solution, rrb.solution
+    if sa is not None and sb is not None and not V and sa.saved_on_disk and sb.saved_on_disk:
+        import tdgl
+
+        la, lb = tdgl.Solution.from_hdf5(sa.path), tdgl.Solution.from_hdf5(sb.path)
+        C["physical_output_checks"] += 1
+        Kl = [np.asarray(x.current_density.to("uA / um").magnitude) for x in (sa, la, lb)]
+        sc0 = max(float(np.max(np.abs(Kl[0]))), 1e-12)
+        for nm, Kx in (("reloaded_a", Kl[1]), ("reloaded_b", Kl[2])):
+            r = float(np.max(np.abs(Kx - Kl[0]))) / sc0
+            if r > gate:
+                V.append({"kind": "physical_current_density_changes_on_reload", "mechanism": "physical_output_depends_on_units", "detail": {"which": nm, "rel": r, "units": [ua, ub]}})
+        for nm, x, uu in (("reloaded_a", la, ua), ("reloaded_b", lb, ub)):
+            if x.device.length_units != uu[0] or x.field_units != uu[1] or x.current_units != uu[2]:
+                V.append({"kind": "units_lost_on_reload", "mechanism": "units_lost_on_reload", "detail": {"which": nm, "expected": uu, "got": [x.device.length_units, x.field_units, x.current_units]}})
     if sa is not None and sb is not None and not V:
         Ka = np.asarray(sa.current_density.to("uA / um").magnitude)
         Kb = np.asarray(sb.current_density.to("uA / um").magnitude)
